@@ -176,6 +176,22 @@ func GenHistory(t *rapid.T, p Profile) History {
 			s.V = rapid.IntRange(0, 1500).Draw(t, "kill-after-ms")
 		}
 		h.Steps = append(h.Steps, s)
+		switch k {
+		case "set-wrongestablish":
+			// the check passes before the run, the run itself breaks the post-condition: force the run with a command change
+			h.Steps = append(h.Steps, Step{Kind: "bump-nonce", T: s.T}, Step{Kind: "build", Build: genBuild(t, p, h.WS)}, Step{Kind: "clear-switches"}, Step{Kind: "build", Build: genBuild(t, p, h.WS)})
+		case "set-fail", "set-skipout", "set-selfkill", "set-slow":
+			// fail -> build -> clear -> build: the second build must attempt what failed or was skipped (nothing was cached)
+			if rapid.IntRange(0, 1).Draw(t, "failmacro") == 0 {
+				h.Steps = append(h.Steps, Step{Kind: "bump-nonce", T: s.T, V: rapid.IntRange(0, 1).Draw(t, "force")}, Step{Kind: "build", Build: genBuild(t, p, h.WS)}, Step{Kind: "clear-switches"}, Step{Kind: "build", Build: genBuild(t, p, h.WS)})
+			}
+		case "taint":
+			// a tainted target whose forced run fails keeps its taint: the build after the repair must run it again
+			if len(p.ExtSteps) > 0 && rapid.IntRange(0, 2).Draw(t, "taintfail") == 0 {
+				h.Steps = append(h.Steps, Step{Kind: "set-fail", T: s.T}, Step{Kind: "build", Build: &BuildOpts{Patterns: []string{"//..."}}}, Step{Kind: "clear-switches"},
+					Step{Kind: "build", Build: &BuildOpts{Patterns: []string{"//..."}}}, Step{Kind: "build", Build: &BuildOpts{Patterns: []string{"//..."}}})
+			}
+		}
 		if k == "toggle-file" || (k == "edit-content" && rapid.IntRange(0, 3).Draw(t, "revert") == 0) {
 			// "there and back again": S1 -> S2 -> S1 with builds in between, so that the last build is served an OLD entry
 			back := s
